@@ -459,6 +459,63 @@ theorem strand_median_spec (vals : List (Option Rat)) (rs : List SResp)
     simp
 
 
+/-! ### overall margins of a slice (`*_scale_mean_margin`, `*_scale_median_margin`)
+    `rs`: all respondents of the table, by category of the dimension carrying the values -/
+
+theorem div_one_cats (cats : List Cat) :
+    cats.map (fun x => Val.fin x.2 / Val.fin 1) = countsOfCats cats := by
+  unfold countsOfCats
+  apply List.map_congr_left
+  intro x _
+  rw [ValL.fin_div_fin _ _ (by norm_num)]; simp
+
+/-- **overall scale mean** = weighted mean of all the table's respondents' values (None when no
+    category has a value, NaN when no respondent carries one) -/
+theorem margin_mean_spec (vals : List (Option Rat)) (rs : List SResp) (ok : Ok vals rs) :
+    marginMean (valuesV vals) (countsV vals rs)
+      = if isDefined (valuesV vals) then SOut.v (ScaleSpec.mean (valued vals rs)) else SOut.none_ := by
+  unfold marginMean
+  by_cases hd : isDefined (valuesV vals) = true
+  · rw [if_pos hd, if_pos hd]
+    congr 1
+    have h := weightedMean_cats (catsOf vals rs) 1 (by norm_num) (catsOf_nonneg vals rs ok.wnn)
+    rw [div_one_cats, S0_catsOf vals rs ok.inRange, S1_catsOf vals rs ok.inRange] at h
+    unfold weightedMean at h
+    rw [show valuesV vals = valuesOf (catsOf vals rs) from (valuesOf_catsOf vals rs).symm,
+        show countsV vals rs = countsOfCats (catsOf vals rs) from (countsOfCats_catsOf vals rs).symm, h]
+    rfl
+  · rw [if_neg hd, if_neg hd]
+
+/-- **overall scale median (integer counts)** = median of all the table's respondents' values -/
+theorem margin_median_spec (vals : List (Option Rat)) (rs : List SResp)
+    (hr : ∀ r ∈ rs, r.cat < vals.length) (hu : ∀ r ∈ rs, r.w = 1) :
+    marginMedian (valuesV vals) (countsV vals rs)
+      = if isDefined (valuesV vals) = false ∨ respValues vals rs = [] then SOut.none_
+        else SOut.v (ScaleSpec.median (respValues vals rs)) := by
+  have hvc : valuedPairs (valuesV vals) (countsV vals rs) = (valuedN vals rs).map enc := by
+    rw [valuedPairs_strand, valuedQ_catsOf_unit vals rs hu, List.map_map]
+    rfl
+  have hperm := expand_valuedN_perm vals rs hr
+  unfold marginMedian
+  by_cases hd : isDefined (valuesV vals) = true
+  · rw [if_pos hd, hvc, expand_enc]
+    show (if ((expandN (valuedN vals rs)).map Val.fin).isEmpty = true then SOut.none_
+          else SOut.v (medianOf ((expandN (valuedN vals rs)).map Val.fin))) = _
+    rw [medianOf_map_fin, median_perm hperm]
+    by_cases he : respValues vals rs = []
+    · have hnil : expandN (valuedN vals rs) = [] := by
+        rw [he] at hperm; exact List.perm_nil.mp hperm
+      simp [hnil, he]
+    · have hne : expandN (valuedN vals rs) ≠ [] := by
+        intro hnil; rw [hnil] at hperm; exact he (List.nil_perm.mp hperm)
+      have h2 : ((expandN (valuedN vals rs)).map Val.fin).isEmpty = false := by
+        cases hq : expandN (valuedN vals rs) with
+        | nil => exact absurd hq hne
+        | cons a as => rfl
+      simp [h2, he, hd]
+  · have hd' : isDefined (valuesV vals) = false := by simpa using hd
+    simp [hd']
+
 /-! ### non-vacuity: the hypotheses are satisfiable by non-trivial inputs -/
 
 /-- values [1, –, 3]; respondents of weight 1/2, 2, 1 in categories 0, 2, 1 -/
